@@ -33,7 +33,7 @@ const M: Limits = Limits { max_log_n: 11, max_log_lde: 15, max_width: 255, max_g
 const L: Limits = Limits { max_log_n: 13, max_log_lde: 18, max_width: 64, max_grinding: 12, allow_meta_pad: false };
 
 pub fn scenarios() -> Vec<Scenario> {
-    let about = if cfg!(any(feature = "concurrent", feature = "async")) {
+    let about = if cfg!(any(feature = "concurrent", feature = "async", feature = "real-rayon")) {
         "same instances as the serial reference, proved under the simulated scheduler (3 (worker count, schedule) variants per instance, one of them with the nonce search pinned to worker 0) and/or the simulated executor (1..4 proofs in flight, yields, one cancellation); context / commitments / OOD frame bytes must equal the serial build's, the whole proof when the nonce is equal, and every proof verifies"
     } else {
         "reference: the serial build proves each instance once and records digests of context, commitments, OOD frame, nonce and whole proof"
@@ -144,7 +144,7 @@ fn c06(lim: &Limits, size: &'static str) -> Outcome {
     Ok(())
 }
 
-#[cfg(not(any(feature = "concurrent", feature = "async")))]
+#[cfg(not(any(feature = "concurrent", feature = "async", feature = "real-rayon")))]
 fn one<B, H>(inst: &Instance, _size: &str) -> Outcome
 where
     B: StarkField + ExtensibleField<2> + ExtensibleField<3> + 'static,
@@ -192,6 +192,37 @@ fn compare(inst: &Instance, size: &str, what: &str, proof: &Proof, require_whole
         }
     }
     stats::count("steps.proofs_compared_with_serial", 1);
+    Ok(())
+}
+
+/// calibration build: winterfell's concurrent code on the REAL rayon with however many threads
+/// RAYON_NUM_THREADS gives it; observation only (see /verif/calib)
+#[cfg(feature = "real-rayon")]
+fn one<B, H>(inst: &Instance, size: &str) -> Outcome
+where
+    B: StarkField + ExtensibleField<2> + ExtensibleField<3> + 'static,
+    H: ElementHasher<BaseField = B> + Sync + Send,
+{
+    let p = prepare::<B>(inst);
+    reset_histories();
+    let threads = utils::rayon::current_num_threads();
+    let what = format!("real-rayon threads={threads}");
+    match crate::c01::prove_node::<B, H>(inst, &p.spec, &p.inputs, p.main.clone(), None) {
+        ProveOutcome::Proof(proof) => {
+            compare(inst, size, &what, &proof, false)?;
+            if tape::w("c06.verify", 3) == 0 {
+                match verify_node::<B, H>(&proof.to_bytes(), &p.inputs) {
+                    Ok(Ok(())) => {},
+                    _ => fail!("proof-of-this-build-does-not-verify", "real-rayon", "{what} :: {}", inst.describe()),
+                }
+            }
+        },
+        _ => {
+            if reference(size, instance_key(inst)).is_some() {
+                fail!("prover-fails-where-serial-build-succeeds", "real-rayon", "{what} :: {}", inst.describe());
+            }
+        },
+    }
     Ok(())
 }
 
